@@ -208,6 +208,23 @@ components:
   schemas:
     Error: {type: object, required: [message], properties: {message: {type: string}}}
 `, fl("ops", "json", "interfaces")},
+	{"recursive_optional_nullable", `openapi: 3.0.3
+info: {title: t, version: "1"}
+paths:
+  /a:
+    get:
+      operationId: getA
+      responses:
+        "200": {description: ok, content: {application/json: {schema: {$ref: "#/components/schemas/Node"}}}}
+components:
+  schemas:
+    Node:
+      type: object
+      required: [id]
+      properties:
+        id: {type: integer}
+        next: {nullable: true, allOf: [{$ref: "#/components/schemas/Node"}]}
+`, fl("ops", "json")},
 	{"webhooks_only", `openapi: 3.1.0
 info: {title: t, version: "1"}
 webhooks:
@@ -490,6 +507,11 @@ func Check(r *core.Run) error {
 			cases = append(cases, &genCase{pkg: fmt.Sprintf("n_%s_%d", sc, i/batch), what: fmt.Sprintf("names %q in scope %s", names[i:j], sc), set: set, spec: nameSpec(sc, names[i:j]), names: names[i:j], scope: sc})
 		}
 	}
+	// names whose Go identifiers coincide, side by side in every scope (both tiers)
+	for _, sc := range scopes {
+		pair := []string{"a+", "a-"}
+		cases = append(cases, &genCase{pkg: fmt.Sprintf("n_%s_sib", sc), what: fmt.Sprintf("names %q in scope %s", pair, sc), set: defaultSet, spec: nameSpec(sc, pair), names: pair, scope: sc})
+	}
 	var wg sync.WaitGroup
 	sem := make(chan struct{}, 12)
 	var generate func(c *genCase)
@@ -610,7 +632,22 @@ func Check(r *core.Run) error {
 		if nm == nil {
 			nm = []string{}
 		}
-		b, _ := json.Marshal(map[string]any{"k": "gen", "set": set, "shape": shapeFlags, "flagsKnown": c.shape != nil, "gen": c.gen, "build": c.build, "files": files, "names": nm, "scope": c.scope, "shapeName": shapeName})
+		// a batch whose every name generates and compiles alone
+		aloneOK := false
+		if c.shape == nil && len(c.names) > 1 && c.build == "fail" {
+			aloneOK = true
+			found := 0
+			for _, d := range cases {
+				if strings.HasPrefix(d.pkg, c.pkg+"_b") {
+					found++
+					if _, bad := failed[d.pkg]; bad || d.gen != "ok" {
+						aloneOK = false
+					}
+				}
+			}
+			aloneOK = aloneOK && found == len(c.names)
+		}
+		b, _ := json.Marshal(map[string]any{"k": "gen", "set": set, "shape": shapeFlags, "flagsKnown": c.shape != nil, "gen": c.gen, "build": c.build, "files": files, "names": nm, "scope": c.scope, "shapeName": shapeName, "aloneOK": aloneOK})
 		lines = append(lines, b)
 		desc = append(desc, fmt.Sprintf("%s -> generation %s %s, build %s %s", c.what, c.gen, c.err, c.build, c.berr))
 		cls := "names"
